@@ -506,3 +506,330 @@ theorem cre_cancel (S : Schema) (o : MergeOpts) : ∀ (n : Nat) (t s : DNode) (c
         · simp [pj_setKids_inner, pj_kids_inner, noKeys_keysOf]
 
 end LyModel.Diff
+
+namespace LyModel.Diff
+open LyModel LyModel.Tree
+
+/-! ### the nodes of an exact diff, one by one -/
+
+/-- the reversed node of `c` finds `c` behind the key leaves and removes it -/
+def NodeCanSpec (S : Schema) (o : MergeOpts) (c : DNode) : Prop :=
+  ∀ (inh : Option Op) (e : Option DNode), (inh = none ∨ inh = some .none) → exactE S inh e c = true → stdN c = true →
+    ∃ c', revNode S inh (revDup c) = .ok c' ∧ c'.sid = c.sid ∧
+      ∀ pre rest, (∀ k ∈ pre, S.isKey k.sid = true) → mergeR S o inh inh c' (pre ++ c :: rest) = .ok (pre ++ rest)
+
+def ListCanSpec (S : Schema) (o : MergeOpts) (D : List DNode) : Prop :=
+  ∀ (inh : Option Op) (L : List DNode) (leading : Bool), (inh = none ∨ inh = some .none) →
+    exactK S inh L leading D = true → stdL D = true →
+    ∃ R, revL S inh (revDupL D) = .ok R ∧ (leading = true → keysOf S R = revDupL (keysOf S D)) ∧
+      ∀ pre, (∀ k ∈ pre, S.isKey k.sid = true) →
+        mergeKids S o inh inh leading R (pre ++ D) = .ok (pre ++ (if leading then keysOf S D else []))
+
+theorem can_create {S : Schema} {o : MergeOpts} {inh : Option Op} {e : Option DNode} {c : DNode}
+    (hinh : inh = none ∨ inh = some .none) (hex : exactE S inh e c = true) (hstd : stdN c = true)
+    (hop : effOp c inh = some .create) :
+    ∃ c', revNode S inh (revDup c) = .ok c' ∧ c'.sid = c.sid ∧
+      ∀ pre rest, (∀ k ∈ pre, S.isKey k.sid = true) → mergeR S o inh inh c' (pre ++ c :: rest) = .ok (pre ++ rest) := by
+  obtain ⟨hd, hm, hk⟩ := exactE_base hex
+  obtain ⟨_, hpl, hgk⟩ := exactE_create hex hop
+  have hown := ownOp_of_effOp hinh hop (by decide)
+  have hrev : revNode S inh (revDup c) = .ok (changeOp (revDup c) .delete) := by
+    rw [revNode_create (by simpa using hk) (by rw [effOp_revDup]; exact hop), kids_revDup,
+      map_removeOp_plain _ (by rw [plainL_revDupL]; exact hpl), ← kids_revDup]
+    have : (revDup c).kids = (changeOp (revDup c) .delete).kids := by simp
+    rw [this, setKids_kids]
+  refine ⟨_, hrev, by simp, ?_⟩
+  intro pre rest hpre
+  have hmo := metaOK_revDup hm
+  exact del_cancel S o c.height c _ inh inh pre rest (Nat.le_refl _) (goodN_iff.mpr ⟨hd, hgk⟩) hk (stdN_create hstd hown) hpl
+    (by simp) (by simp) (by simp) (by simp) (by simp [kids_revDup]) (effOp_changeOp hmo .delete)
+    (childInh_of_own _ .delete inh (ownOp_changeOp hmo .delete) (by decide)) hpre
+
+theorem can_delete {S : Schema} {o : MergeOpts} {inh : Option Op} {e : Option DNode} {c : DNode}
+    (hinh : inh = none ∨ inh = some .none) (hex : exactE S inh e c = true) (hstd : stdN c = true)
+    (hop : effOp c inh = some .delete) :
+    ∃ c', revNode S inh (revDup c) = .ok c' ∧ c'.sid = c.sid ∧
+      ∀ pre rest, (∀ k ∈ pre, S.isKey k.sid = true) → mergeR S o inh inh c' (pre ++ c :: rest) = .ok (pre ++ rest) := by
+  obtain ⟨hd, hm, hk⟩ := exactE_base hex
+  obtain ⟨_, _, _, hpl, hgk⟩ := exactE_delete hex hop
+  have hown := ownOp_of_effOp hinh hop (by decide)
+  have hrev : revNode S inh (revDup c) = .ok (changeOp (revDup c) .create) := by
+    rw [revNode_delete (by simpa using hk) (by rw [effOp_revDup]; exact hop), kids_revDup,
+      map_removeOp_plain _ (by rw [plainL_revDupL]; exact hpl), ← kids_revDup]
+    have : (revDup c).kids = (changeOp (revDup c) .create).kids := by simp
+    rw [this, setKids_kids]
+  refine ⟨_, hrev, by simp, ?_⟩
+  intro pre rest hpre
+  have hmo := metaOK_revDup hm
+  exact cre_cancel S o c.height c _ inh inh pre rest (Nat.le_refl _) (goodN_iff.mpr ⟨hd, hgk⟩) hk (stdN_delete hstd hown) hpl
+    (by simp) (by simp) (by simp) (by simp) (by simp [kids_revDup]) (effOp_changeOp hmo .create)
+    (childInh_of_own _ .create inh (ownOp_changeOp hmo .create) (by decide)) hpre
+
+theorem matchP_self (S : Schema) (c : DNode) (hd : S.isDupInst c.sid = false) : matchP S c c = true := by
+  unfold matchP
+  rw [instMatch_eq hd, sameInst_refl13]
+  simp
+
+theorem can_none_term {S : Schema} {o : MergeOpts} {inh : Option Op} {e : Option DNode} {c : DNode}
+    (hex : exactE S inh e c = true) (hop : effOp c inh = some .none) (hct : c.isTerm = true) :
+    ∃ c', revNode S inh (revDup c) = .ok c' ∧ c'.sid = c.sid ∧
+      ∀ pre rest, (∀ k ∈ pre, S.isKey k.sid = true) → mergeR S o inh inh c' (pre ++ c :: rest) = .ok (pre ++ rest) := by
+  obtain ⟨hd, hm, hk⟩ := exactE_base hex
+  obtain ⟨x, rfl, _, hod⟩ := exactE_none_term hex hop hct
+  have htt : (revDup c).isTerm = true := by simpa using hct
+  have hod' : getMeta (revDup c) "orig-default" = some (boolBytes x.flags.dflt) := by simpa [getMeta_def] using hod
+  have hSt : S.isTerm c.sid = true := by rw [← hd.typed]; exact hct
+  obtain ⟨c', hc', hs', hv', ht', hk', hf', ho', _⟩ := revDefault_spec hod'
+  rw [boolBytes_eq_true] at hf'
+  have hrev : revNode S inh (revDup c) = .ok c' := by
+    rw [revNode_term_none htt (by simpa using hk) (by rw [effOp_revDup]; exact hop)]
+    simp only [revNone, sid_revDup, hSt, ↓reduceIte]
+    exact hc'
+  have hsid : c'.sid = c.sid := by rw [hs']; simp
+  refine ⟨c', hrev, hsid, ?_⟩
+  intro pre rest hpre
+  have hsop : effOp c' inh = some .none := by rw [effOp_of_getMeta ho', effOp_revDup]; exact hop
+  have hc't : c'.isTerm = true := by rw [ht']; exact htt
+  have hmatch : matchP S c' c = true := by
+    rw [matchP_of_same_data hd.ndi hsid (by rw [hv']; simp) (by rw [hk', kids_revDup, kids_term hct]; rfl)]
+    exact matchP_self S c hd.ndi
+  rw [mergeR_eq]
+  apply mergeStep_cancel S o inh inh c' c (c.setDflt x.flags.dflt) pre rest (c.setDflt x.flags.dflt).kids .none .none _ hsop hop
+    (fun y hy => matchP_key_false S c' y (by rw [hsid]; exact hk) (hpre y hy)) hmatch hd.ndi (by rw [hsid]; exact hd.ndi)
+  · show (mergeNone S c .none c').map (·, false) = _
+    simp [mergeNone, hsid, hSt, hf', Except.map]
+  · simp [hc't]
+  · rw [setKids_kids]
+    apply redundant_none_term S inh _ _ (by simpa using hSt)
+    · rw [dflt_setDflt]
+      have : getMeta (c.setDflt x.flags.dflt) "orig-default" = getMeta c "orig-default" := by
+        simp [getMeta_def]
+      rw [this]; exact hod
+    · rw [effOp_congr_metas (d := c) (by simp)]; exact hop
+
+end LyModel.Diff
+
+namespace LyModel.Diff
+open LyModel LyModel.Tree
+
+theorem metas_changeTerm (n : DNode) (v : Bytes) : (changeTerm n v).metas = n.metas := by
+  cases n <;> rfl
+theorem sid_changeTerm (n : DNode) (v : Bytes) : (changeTerm n v).sid = n.sid := by
+  cases n <;> rfl
+theorem val_changeTerm {n : DNode} (h : n.isTerm = true) (v : Bytes) : (changeTerm n v).val = v := by
+  cases n with
+  | inner => simp [DNode.isTerm] at h
+  | term => rfl
+
+theorem can_replace {S : Schema} {o : MergeOpts} {inh : Option Op} {e : Option DNode} {c : DNode}
+    (hex : exactE S inh e c = true) (hop : effOp c inh = some .replace) :
+    ∃ c', revNode S inh (revDup c) = .ok c' ∧ c'.sid = c.sid ∧
+      ∀ pre rest, (∀ k ∈ pre, S.isKey k.sid = true) → mergeR S o inh inh c' (pre ++ c :: rest) = .ok (pre ++ rest) := by
+  obtain ⟨hd, hm, hk⟩ := exactE_base hex
+  obtain ⟨hct, x, rfl, hleaf, hov, hod, hne⟩ := exactE_replace hex hop
+  have htt : (revDup c).isTerm = true := by simpa using hct
+  have hkind : S.kind? (revDup c).sid = some .leaf := by simpa using isKind_iff.mp hleaf
+  have hkindc : S.kind? c.sid = some .leaf := isKind_iff.mp hleaf
+  have hov' : getMeta (revDup c) "orig-value" = some x.val := by simpa [getMeta_def] using hov
+  have hod' : getMeta (revDup c) "orig-default" = some (boolBytes x.flags.dflt) := by simpa [getMeta_def] using hod
+  have hne' : x.val ≠ (revDup c).val := by simpa using Ne.symm hne
+  have hV := revValue_spec hov' hne'
+  have ht1od : getMeta (((revDup c).setVal x.val).setMetas (setMetaVal "orig-value" (revDup c).val (revDup c).metas))
+      "orig-default" = some (boolBytes x.flags.dflt) := by
+    have := getMeta_setMetas_setMetaVal_ne (t := (revDup c).setVal x.val) (name := "orig-value") (name' := "orig-default")
+      (by decide) (revDup c).val
+    simp only [metas_setVal] at this
+    rw [this]
+    simpa [getMeta_def] using hod'
+  obtain ⟨c', hc', hs', hv', ht', _, hf', ho', _⟩ := revDefault_spec ht1od
+  rw [boolBytes_eq_true] at hf'
+  have hrev : revNode S inh (revDup c) = .ok c' := by
+    rw [revNode_term_replace htt (by simpa using hk) (by rw [effOp_revDup]; exact hop)]
+    simp only [revReplace, hkind, hV, Except.bind]
+    exact hc'
+  have hsid : c'.sid = c.sid := by rw [hs']; simp
+  have hval : c'.val = x.val := by rw [hv', val_setMetas, val_setVal_term htt]
+  have hc't : c'.isTerm = true := by rw [ht']; simpa using hct
+  refine ⟨c', hrev, hsid, ?_⟩
+  intro pre rest hpre
+  have hsop : effOp c' inh = some .replace := by
+    rw [effOp_of_getMeta ho']
+    have := getMeta_setMetas_setMetaVal_ne (t := (revDup c).setVal x.val) (name := "orig-value") (name' := "operation")
+      (by decide) (revDup c).val
+    simp only [metas_setVal] at this
+    rw [effOp_of_getMeta (d := revDup c) (by rw [this]; simp [getMeta_def]), effOp_revDup]
+    exact hop
+  have hmatch : matchP S c' c = true := matchP_leaf (by rw [hsid]; exact hleaf) hsid.symm
+  have hsame : sameInst S c c' = false := by
+    unfold sameInst
+    rw [hkindc, hval]
+    have : (c.val == x.val) = false := beq_eq_false_iff_ne.mpr hne
+    simp [this]
+  have hSt : S.isTerm c.sid = true := isTerm_of_leaf hleaf
+  -- the merged node
+  let Y := (changeTerm c x.val).setMetas (eraseMeta "orig-value" c.metas)
+  have hYok : MetaOK Y := by
+    show ((Y.metas).map (·.1)).Nodup
+    simp only [Y, metas_setMetas]
+    exact nodup_eraseMeta hm
+  have hcell : mergeCell S o .replace c .replace c' = .ok ((changeOp Y .none).setDflt x.flags.dflt, false) := by
+    show (mergeReplace S c .replace c').map (·, false) = _
+    unfold mergeReplace
+    have h1 : getMeta (changeTerm c x.val) "orig-value" = some x.val := by
+      rw [getMeta_def, metas_changeTerm, ← getMeta_def]; exact hov
+    simp only [hkindc, hsame, Bool.false_eq_true, if_false, beq_self_eq_true, if_true, hval, h1, val_changeTerm hct,
+      metas_changeTerm, Except.map, hf']
+    rfl
+  rw [mergeR_eq]
+  apply mergeStep_cancel S o inh inh c' c _ pre rest ((changeOp Y .none).setDflt x.flags.dflt).kids .replace .replace _ hsop hop
+    (fun y hy => matchP_key_false S c' y (by rw [hsid]; exact hk) (hpre y hy)) hmatch hd.ndi (by rw [hsid]; exact hd.ndi) hcell
+  · simp [hc't]
+  · rw [setKids_kids]
+    apply redundant_none_term S inh _ _ (by simpa [Y, sid_changeTerm] using hSt)
+    · rw [dflt_setDflt]
+      have h2 : getMeta ((changeOp Y .none).setDflt x.flags.dflt) "orig-default" = getMeta (changeOp Y .none) "orig-default" := by
+        simp [getMeta_def]
+      rw [h2, getMeta_changeOp_ne (by decide)]
+      simp only [Y, getMeta_def, metas_setMetas]
+      rw [find?_eraseMeta_ne (by decide), ← getMeta_def]
+      exact hod
+    · rw [effOp_congr_metas (d := changeOp Y .none) (by simp)]
+      exact effOp_changeOp hYok .none
+
+end LyModel.Diff
+
+namespace LyModel.Diff
+open LyModel LyModel.Tree
+
+theorem can_none_inner {S : Schema} {o : MergeOpts} {s : Nat} {f : Flags} {m : List Meta} {ks : List DNode}
+    (IH : ListCanSpec S o ks) {inh : Option Op} {e : Option DNode} (hinh : inh = none ∨ inh = some .none)
+    (hex : exactE S inh e (.inner s f m ks) = true) (hstd : stdN (.inner s f m ks) = true)
+    (hop : effOp (.inner s f m ks) inh = some .none) :
+    ∃ c', revNode S inh (revDup (.inner s f m ks)) = .ok c' ∧ c'.sid = (DNode.inner s f m ks).sid ∧
+      ∀ pre rest, (∀ k ∈ pre, S.isKey k.sid = true) →
+        mergeR S o inh inh c' (pre ++ .inner s f m ks :: rest) = .ok (pre ++ rest) := by
+  obtain ⟨hd, hm, hk⟩ := exactE_base hex
+  obtain ⟨x, rfl, _, hexk⟩ := exactE_none_inner hex hop
+  obtain ⟨R, hR, hRk, hRm⟩ := IH (childInhOf (.inner s f m ks) inh) x.kids true (childInh_none_or hinh hop) hexk
+    (stdN_none_inner hinh hop hstd)
+  simp only [pj_sid_inner] at hk
+  have hci : ∀ ks', childInhOf (DNode.inner s { dflt := f.dflt, new := true } m ks') inh = childInhOf (.inner s f m ks) inh :=
+    fun ks' => childInh_congr_metas (d := .inner s f m ks) (d' := .inner s { dflt := f.dflt, new := true } m ks') rfl
+  have hopt : ∀ (f' : Flags) ks', effOp (DNode.inner s f' m ks') inh = some .none := fun f' ks' =>
+    (effOp_congr_metas (d := .inner s f m ks) (d' := .inner s f' m ks') rfl).trans hop
+  have hnt : S.isTerm s = false := by have := hd.typed; simpa [DNode.isTerm, pj_sid_inner] using this.symm
+  have hndi : S.isDupInst s = false := hd.ndi
+  refine ⟨.inner s { dflt := f.dflt, new := true } m R, ?_, rfl, ?_⟩
+  · simp only [revDup, revNode, hk, Bool.false_eq_true, ↓reduceIte, hopt, hci, hR]
+  · intro pre rest hpre
+    rw [mergeR_eq]
+    have hmatch : matchP S (.inner s { dflt := f.dflt, new := true } m R) (.inner s f m ks) = true := by
+      unfold matchP
+      rw [instMatch_eq hndi]
+      have : sameInst S (.inner s f m ks) (.inner s { dflt := f.dflt, new := true } m R) = true := by
+        unfold sameInst
+        simp only [pj_sid_inner, pj_kids_inner, beq_self_eq_true, Bool.true_and, hRk rfl]
+        split <;> simp [keysEq_revDupL, DNode.val]
+      simp [this, pj_sid_inner]
+    apply mergeStep_cancel S o inh inh _ (.inner s f m ks) (.inner s f m ks) pre rest (keysOf S ks) .none .none _
+      (hopt _ _) hop (fun y hy => matchP_key_false S _ y hk (hpre y hy)) hmatch hndi hndi
+    · show (mergeNone S _ .none _).map (·, false) = _
+      simp [mergeNone, pj_sid_inner, hnt, Except.map]
+    · simp only [DNode.isTerm, Bool.false_eq_true, if_false, pj_kids_inner, hci]
+      have := hRm [] (by simp)
+      simpa using this
+    · apply redundant_none_nokids S inh _ (hopt _ _)
+      · simpa [pj_setKids_inner, pj_sid_inner] using hnt
+      · simp [pj_setKids_inner, pj_kids_inner, noKeys_keysOf]
+
+theorem listCan_cons {S : Schema} {o : MergeOpts} {c : DNode} {cs : List DNode} (hc : NodeCanSpec S o c)
+    (hcs : ListCanSpec S o cs) : ListCanSpec S o (c :: cs) := by
+  intro inh L leading hinh hex hstd
+  simp only [stdL, Bool.and_eq_true] at hstd
+  by_cases hlk : (leading && S.isKey c.sid) = true
+  · simp only [Bool.and_eq_true] at hlk
+    obtain ⟨rfl, hk⟩ := hlk
+    have hex' : exactK S inh L true cs = true := by
+      unfold exactK at hex
+      simpa [hk] using hex
+    obtain ⟨R, hR, hRk, hRm⟩ := hcs inh L true hinh hex' hstd.2
+    have hkr : S.isKey (revDup c).sid = true := by simpa using hk
+    refine ⟨revDup c :: R, revL_cons (revNode_key hkr) hR, ?_, ?_⟩
+    · intro _
+      rw [keysOf_cons_key hkr, keysOf_cons_key hk, hRk rfl]
+      rfl
+    · intro pre hpre
+      rw [mergeKids_cons_key S o inh inh _ _ _ hkr]
+      have := hRm (pre ++ [c]) (by
+        intro k hkm
+        rcases List.mem_append.1 hkm with h | h
+        · exact hpre k h
+        · simp only [List.mem_singleton] at h; subst h; exact hk)
+      simp only [List.append_assoc, List.singleton_append, if_true] at this ⊢
+      rw [this, keysOf_cons_key hk]
+  · have hex' := hex
+    unfold exactK at hex'
+    simp only [hlk, Bool.false_eq_true, ↓reduceIte, Bool.and_eq_true] at hex'
+    obtain ⟨⟨⟨hE, _⟩, _⟩, hrest⟩ := hex'
+    have hk : S.isKey c.sid = false := (exactE_base hE).2.2
+    obtain ⟨c', h1, hsid, hm1⟩ := hc inh (look S L c) hinh hE hstd.1
+    obtain ⟨R, hR, _, hRm⟩ := hcs inh L false hinh hrest hstd.2
+    have hk' : S.isKey c'.sid = false := by rw [hsid]; exact hk
+    refine ⟨c' :: R, revL_cons h1 hR, ?_, ?_⟩
+    · intro _
+      rw [keysOf_cons_nokey hk', keysOf_cons_nokey hk]
+      rfl
+    · intro pre hpre
+      rw [mergeKids_cons_nokey S o inh inh leading c' R _ _ hk' (hm1 pre cs hpre)]
+      have := hRm pre hpre
+      simp only [Bool.false_eq_true, if_false, List.append_nil] at this
+      rw [this, keysOf_cons_nokey hk]
+      simp
+
+mutual
+theorem nodeCan {S : Schema} {o : MergeOpts} : ∀ c : DNode, NodeCanSpec S o c
+  | .inner s f m ks => by
+    intro inh e hinh hex hstd
+    cases hop : effOp (.inner s f m ks) inh with
+    | none =>
+      simp only [exactE, hop, Bool.and_eq_true] at hex
+      cases e <;> simp at hex
+    | some op =>
+      cases op with
+      | create => exact can_create hinh hex hstd hop
+      | delete => exact can_delete hinh hex hstd hop
+      | replace =>
+        simp only [exactE, hop, Bool.and_eq_true] at hex
+        cases e <;> simp at hex
+      | none => exact can_none_inner (listCan ks) hinh hex hstd hop
+  | .term s f m v => by
+    intro inh e hinh hex hstd
+    cases hop : effOp (.term s f m v) inh with
+    | none =>
+      simp only [exactE, hop, Bool.and_eq_true] at hex
+      cases e <;> simp at hex
+    | some op =>
+      cases op with
+      | create => exact can_create hinh hex hstd hop
+      | delete => exact can_delete hinh hex hstd hop
+      | replace => exact can_replace hex hop
+      | none => exact can_none_term hex hop rfl
+theorem listCan {S : Schema} {o : MergeOpts} : ∀ D : List DNode, ListCanSpec S o D
+  | [] => by
+    intro inh L leading _ _ _
+    refine ⟨[], rfl, fun _ => rfl, ?_⟩
+    intro pre _
+    rw [mergeKids_nil]
+    cases leading <;> simp [keysOf]
+  | c :: cs => listCan_cons (nodeCan c) (listCan cs)
+end
+
+/-- **merge_cancel, tree level**: merging the reversed diff of an exact diff into it leaves the empty diff -/
+theorem merge_reverse_empty {S : Schema} {o : MergeOpts} {A D : List DNode} (hD : exactDiff S A D = true)
+    (hstd : stdL D = true) : ∃ R, reverse S D = .ok R ∧ mergeDiff o S D R = .ok [] := by
+  obtain ⟨R, hR, _, hm⟩ := listCan (S := S) (o := o) D none A false (Or.inl rfl) hD hstd
+  refine ⟨R, hR, ?_⟩
+  have := hm [] (by simp)
+  simpa [mergeDiff] using this
+
+end LyModel.Diff
